@@ -47,7 +47,7 @@ P = {
     'C11': ('constant folding of TYPE constants; anchored-region algebra: classifier regions vs encoder regions for all 44 sizes; decision table of the colour map over sizes and keywords; abstract interpretation of the SVG / PNG / PPM serialisers on a typed pattern symbol with decoding of the output (as C09)',
             'type constants, polarity, classifier = encoder regions (44 sizes, every cell), colour map wiring and thresholds, iterator mapping and validation, every module painted with the colour of its type in SVG (incl. two-colour shortcut, background, transparent modules), PNG and PPM',
             'real symbols (see C09)'),
-    'C12': ('abstract interpretation of save / the data-URI and inline routes / QRCodeSequence.save / the CLI (argparse run by the interpreter) with recording serialisers; forwarding tables (wrapper parameter -> writer parameter); CLI defaults vs writer signature defaults',
+    'C12': ('abstract interpretation of save / the data-URI and inline routes / QRCodeSequence.save / the CLI (argparse run by the interpreter) with recording serialisers; forwarding tables (wrapper parameter -> writer parameter); CLI defaults vs writer signature defaults; the keyword table of the CLI computed by interpreting its module-level introspection on descriptors built from each serialiser\'s decorator chain',
             'dispatch by kind and extension in any case incl. svgz, data URI / inline text decode to exactly the serialiser output (known finding: quote style), wrapper forwarding completeness, CLI default = writer default for every (dest, writer), only accepted keywords passed, sequence file naming from the parts of the name',
             'byte equality of the outputs of real symbols'),
     'C13': ('finite truth tables of the pad/terminator helpers (interpreted) over every (capacity, length) pair of every version class; _encode stage trace with recording stand-ins',
@@ -60,7 +60,7 @@ P = {
             'absence of every implicit exception for every value (whole-program value analysis)'),
     'C15': ('whole-program effect analysis: mutation sites -> receivers (parameter / module object / owned local), '
             'bottom-up parameter-mutation summaries over the call graph, ownership at mutator call sites; '
-            'nondeterminism-source census',
+            'nondeterminism-source and identity-test census; add_segment interpreted with equal values in one and in two objects',
             'no write to module state after import, parameter mutation summaries + ownership, candidate row copies, '
             'no nondeterminism source on the encode path, no mutable defaults, purity of _encode',
             'nothing: the quantifier over histories/schedules collapses to absence of shared mutable state'),
